@@ -361,6 +361,8 @@ func runC03(c *Ctx) {
 	checkNoQuotedExprText(c, "R03s")
 	c.Rule("R03r", ruleTextTrimOrder, 1)
 	checkTrimOrder(c, "R03r")
+	c.Rule("R03t", ruleTextSqliteDefaultQuotes, 1)
+	checkSqliteDefaultQuotes(c, "R03t")
 	c.Rule("R03q", ruleTextScanOrder, 2)
 	checkScanOrder(c, "R03q")
 	c.Rule("R03p", ruleTextExclusiveArms, 0)
